@@ -60,3 +60,19 @@ class Mode:
 
 
 CLASSES = {c.__name__: c for c in (P0, P1, P2, P3, T2, T12, Nest, Deep, Mode)}
+
+
+class P1b:
+    """same constructor as P1, different class (identifier must tell them apart)"""
+
+    def __init__(self, a=0.0):
+        self.a = a
+
+
+class P2b:
+    def __init__(self, a=0.0, b=1.0):
+        self.a = a
+        self.b = b
+
+
+CLASSES.update({"P1b": P1b, "P2b": P2b})
